@@ -53,8 +53,13 @@ def build(cfg):
     elif cfg.get('problem') == 'vdp':
         from pySDC.implementations.problem_classes.Van_der_Pol_implicit import vanderpol
         pclass, pparams = vanderpol, dict(mu=2.0, newton_tol=1e-12, newton_maxiter=50, u0=np.array([2.0, 0.0]))
-    if cfg.get('residual_type'):
-        pass
+    if cfg.get('sweeper'):
+        import pySDC.implementations.sweeper_classes.Runge_Kutta as rk
+        sweeper = getattr(rk, cfg['sweeper'])
+        swp = dict(do_coll_update=False) if False else {}
+        if issubclass(sweeper, rk.RungeKuttaIMEX):
+            from pySDC.implementations.problem_classes.HeatEquation_ND_FD import heatNd_forced
+            pclass, pparams = heatNd_forced, dict(nu=0.1, freq=2, nvars=31, bc='dirichlet-zero')
     desc = dict(
         problem_class=pclass,
         problem_params=pparams,
@@ -86,7 +91,8 @@ def build(cfg):
 def run_one(cfg, script, tid=0, default=None):
     desc, cp = build(cfg)
     rec, out = run_traced(desc, cp, cfg['NP'], lambda P: P.u_exact(0.0), cfg['T0'] * UNIT, cfg['TEND'] * UNIT,
-                          unit=UNIT, script=script, mode='lattice', default=default)
+                          unit=UNIT, script=script, mode='lattice', default=default,
+                          defect_check=not cfg.get('sweeper'))
     script = rec.script[:rec.pos] if rec.script is not None else script
     lines = rec.lines
     if lines and lines[-1]['k'] == 'end':
